@@ -169,3 +169,4 @@ Print Assumptions C10_ctmc_route_algebra.
 Print Assumptions C10_martingale_ctmc_hem.
 Print Assumptions C10_ctmc_truncation_bias_zero.
 Print Assumptions C10_ctmc_truncation_refuted.
+Print Assumptions C10_nonvacuous.
